@@ -29,11 +29,11 @@ type c04Script struct {
 	Stack    string `json:"stack"`
 	MinChunk int    `json:"registry_min_chunk"` // what the backend's writers report as ChunkSize
 	Hint     int    `json:"hint"`
-	Pieces   []int  `json:"pieces"`           // lengths of the Write calls
-	CloseAt  []bool `json:"close_before"`     // CloseAt[i]: close and resume before piece i (i >= 1)
-	Mode     string `json:"resume_mode"`      // explicit, minus1, alternate
-	BadAt    int    `json:"bad_resume_at"`    // boundary index at which a bad resume is tried first (-1 none)
-	BadKind  string `json:"bad_kind"`         // plus1, minus1, zero
+	Pieces   []int  `json:"pieces"`            // lengths of the Write calls
+	CloseAt  []bool `json:"close_before"`      // CloseAt[i]: close and resume before piece i (i >= 1)
+	Mode     string `json:"resume_mode"`       // explicit, minus1, alternate
+	BadAt    int    `json:"bad_resume_at"`     // boundary index at which a bad resume is tried first (-1 none)
+	BadKind  string `json:"bad_kind"`          // plus1, minus1, zero
 	BadVia   string `json:"bad_via,omitempty"` // how the mis-positioned data is flushed: "" = Close (PATCH), "commit" = Commit (PUT)
 	Wrong    bool   `json:"commit_wrong_digest"`
 }
